@@ -212,7 +212,7 @@ func DataflowCheck(prop string) {
 	r := ev.New(prop, "exploration")
 	if prop == "C02" {
 		// the ordering check explores more schedules per program
-		r.SetBudget(170*time.Second, 25*time.Minute)
+		r.SetBudget(170*time.Second, 30*time.Minute)
 	} else {
 		r.SetBudget(100*time.Second, 25*time.Minute)
 	}
@@ -256,6 +256,12 @@ func DataflowCheck(prop string) {
 			maxDev, map[bool]string{true: " plus every ordered pair of held jobs and every map-iteration site of package core", false: ""}[r.Thorough()],
 			map[bool]int{true: 4, false: 3}[r.Thorough()])
 		r.Set("programs_in_family", len(fam))
+		if os.Getenv("VERIF_NO_TIERB") == "" {
+			if _, err := TierBRoot(); err != nil {
+				fmt.Println(err)
+				os.Exit(2)
+			}
+		}
 		r.RunWorkers(0)
 		r.Assume("jobs behave as the model job does (the protocol of mrjob + adapter); tier-B real-binary runs validate the model separately")
 		r.Assume("stage functions are the fixed /verif library (deterministic, null-tolerant)")
@@ -393,5 +399,6 @@ func DataflowCheck(prop string) {
 			}
 		}
 	}
+	TierBDataflow(r, prop)
 	r.Done()
 }
